@@ -43,15 +43,24 @@ pub const DEFECTS: &[&str] = &[
     "strip_kb_no_policy", "strip_kb_drop_no_policy", "kb_on_unbound_no_policy",
     // commitments that are "almost" the right hash: a comparison that is not plain string equality lets them through
     "hash_prefix", "hash_empty", "hash_extended", "hash_case", "hash_padded", "hash_prefix_dropped_disclosure",
+    // the bound key names an algorithm of its own (JWK "alg"): the algorithm the VERIFIER expects still governs
+    "cnf_alg_differs_kb_as_policy", "cnf_alg_equals_kb_not_policy",
 ];
 
 pub fn generate(thorough: bool, seed: u64, em: &mut Emitter) {
+    generate_kinds(DEFECTS, if thorough { 8_000 } else { 1_500 }, seed, em);
+}
+
+/// the key-binding policy is a Validation too (C11): the kinds that concern its algorithm and audience
+pub const POLICY_KINDS: &[&str] = &["none", "none_policy_aud_unset", "other_alg", "aud_unexpected", "aud_missing", "aud_array_ok",
+                                    "cnf_alg_differs_kb_as_policy", "cnf_alg_equals_kb_not_policy"];
+
+pub fn generate_kinds(kinds: &[&str], n: usize, seed: u64, em: &mut Emitter) {
     let mut r = Rng::new(seed ^ 0xC05);
-    let n = if thorough { 8_000 } else { 1_500 };
     for i in 0..n {
         let mut rc = r.fork();
         let r = &mut rc;
-        let defect = DEFECTS[i % DEFECTS.len()];
+        let defect = kinds[i % kinds.len()];
         let claims = gen::gen_object(r, 3, 3, 1);
         let mut marks = gen::gen_marking(r, &claims, true);
         if matches!(defect, "drop_disclosure" | "reorder_disclosures" | "replace_disclosure") && marks.len() < 2 {
@@ -74,7 +83,20 @@ pub fn generate(thorough: bool, seed: u64, em: &mut Emitter) {
             "cnf_n_not_string" => json!({"kty": "RSA", "n": 5, "e": jwk["e"]}),
             "cnf_n_not_base64" => json!({"kty": "RSA", "n": "!!!", "e": jwk["e"]}),
             "cnf_null" => json!("null-member"),
-            _ => jwk.clone(),
+            // accepted: the KB-JWT is signed under the algorithm the verifier expects, whatever the JWK says
+            "cnf_alg_differs_kb_as_policy" => json!({"kty": "RSA", "n": jwk["n"], "e": jwk["e"], "alg": r.pick(&["RS512", "RS384", "PS256"]), "use": "sig"}),
+            // rejected: the KB-JWT follows the JWK's algorithm, which is not the one the verifier expects
+            "cnf_alg_equals_kb_not_policy" => json!({"kty": "RSA", "n": jwk["n"], "e": jwk["e"], "alg": "RS384", "kid": "holder-key-1"}),
+            _ => {
+                // harmless decoration a real JWK often carries
+                let mut j = jwk.clone();
+                if r.chance(1, 3) {
+                    j["alg"] = json!("RS256");
+                    j["use"] = json!("sig");
+                    j["kid"] = json!("k1");
+                }
+                j
+            }
         };
         let mut clear = claims.clone();
         if defect == "cnf_null" {
@@ -105,6 +127,7 @@ pub fn generate(thorough: bool, seed: u64, em: &mut Emitter) {
         match defect {
             "other_key" => other_key = true,
             "other_alg" => kb_alg = *r.pick(&["RS384", "RS512", "PS256"]),
+            "cnf_alg_equals_kb_not_policy" => kb_alg = "RS384",
             "typ_missing" => typ = None,
             "typ_jwt" => typ = Some(*r.pick(&["JWT", "kb+JWT", "kb jwt", ""])),
             "hash_other_string" => kbc["sd_hash"] = json!(indep::hash(sd_alg, &format!("{}x", prefix))),
@@ -205,7 +228,7 @@ pub fn generate(thorough: bool, seed: u64, em: &mut Emitter) {
         for a in indep::ALGS {
             h.as_array_mut().unwrap().push(json!([a, dk, indep::hash(a, &dk)]));
         }
-        let accept = matches!(defect, "none" | "none_policy_aud_unset" | "aud_array_ok" | "cnf_null");
+        let accept = matches!(defect, "none" | "none_policy_aud_unset" | "aud_array_ok" | "cnf_null" | "cnf_alg_differs_kb_as_policy");
         let mut e = expectation(&tok, &clear, &presented, if accept { "accept" } else { "reject" });
         if defect == "cnf_null" {
             // no key binding: the KB-JWT must not be there at all; with the KB attached the token is rejected
